@@ -76,7 +76,7 @@ def rejected_candidates(r, budget, words):
 
 def oracle(ctx, deep):
     ctx.searched = ("captured fd 1 / fd 2 / log bytes of every call searched for the returned password, its tokens of >= 3 bytes, every candidate the "
-                    "scripted tape makes the generator reject, and every word of the list; emitted lines matched against the numeric templates")
+                    "scripted tape makes the generator reject, and every word of the list; emitted lines matched against the numeric templates; the cases run again with every environment variable the library source consults set (none on the pinned tree)")
     import re
     ok_lines = [re.compile(rb"^entropySimple: There must be a positive number of elements\. Not -?\d+$"),
                 re.compile(rb"^\d+ duplicate words found when setting up word list generator$"),
